@@ -595,27 +595,26 @@ func (ax Admissions) marshal() ([]byte, error) {
 	}
 	bb.Write(tmp)
 
+	//professionInfos is not optional: an empty list is an empty sequence
 	pibb := bytes.Buffer{}
-	if len(ax.ProfessionInfos) > 0 {
-		for _, pi := range ax.ProfessionInfos {
-			tmp, err = pi.marshal()
-			if err != nil {
-				return nil, err
-			}
-			pibb.Write(tmp)
-		}
-
-		piMarshalled, err := asn1.Marshal(asn1.RawValue{
-			Class:      asn1.ClassUniversal,
-			Tag:        asn1.TagSequence,
-			IsCompound: true,
-			Bytes:      pibb.Bytes(),
-		})
+	for _, pi := range ax.ProfessionInfos {
+		tmp, err = pi.marshal()
 		if err != nil {
 			return nil, err
 		}
-		bb.Write(piMarshalled)
+		pibb.Write(tmp)
 	}
+
+	piMarshalled, err := asn1.Marshal(asn1.RawValue{
+		Class:      asn1.ClassUniversal,
+		Tag:        asn1.TagSequence,
+		IsCompound: true,
+		Bytes:      pibb.Bytes(),
+	})
+	if err != nil {
+		return nil, err
+	}
+	bb.Write(piMarshalled)
 
 	//finally wrap in sequence
 	axMarshalled, err := asn1.Marshal(asn1.RawValue{
@@ -642,26 +641,26 @@ func (pi ProfessionInfo) marshal() ([]byte, error) {
 	}
 	bb.Write(tmp)
 
-	if len(pi.ProfessionItems) > 0 {
-		bbItems := bytes.Buffer{}
-		for _, item := range pi.ProfessionItems {
-			tmp, err = asn1.MarshalWithParams(item, "utf8")
-			if err != nil {
-				return nil, err
-			}
-			bbItems.Write(tmp)
-		}
-		tmp, err := asn1.Marshal(asn1.RawValue{
-			Class:      asn1.ClassUniversal,
-			Tag:        asn1.TagSequence,
-			IsCompound: true,
-			Bytes:      bbItems.Bytes(),
-		})
+	//professionItems is not optional: an empty list is an empty sequence
+	//(left out, the professionOIDs would be read in its place)
+	bbItems := bytes.Buffer{}
+	for _, item := range pi.ProfessionItems {
+		tmp, err = asn1.MarshalWithParams(item, "utf8")
 		if err != nil {
 			return nil, err
 		}
-		bb.Write(tmp)
+		bbItems.Write(tmp)
 	}
+	tmp, err = asn1.Marshal(asn1.RawValue{
+		Class:      asn1.ClassUniversal,
+		Tag:        asn1.TagSequence,
+		IsCompound: true,
+		Bytes:      bbItems.Bytes(),
+	})
+	if err != nil {
+		return nil, err
+	}
+	bb.Write(tmp)
 
 	tmp, err = partialMarshallStruct(pi, 2, 3)
 	if err != nil {
